@@ -6,6 +6,10 @@
     environment faults, direct and queue mode; NoLossWhenHealthy (liveness) under weak fairness;
     three deliberately broken designs (no lock; writer kept across a reconnect; the background worker dialling
     without the send lock in direct mode -- golib before the repair) are refuted by TLC.
+    MC_OneWay_cfg / _qcfg: the same invariants with configuration changes between sends (default license, queue
+    capacity, server list; by field and by ApplyConfig with its re-dial); two more broken designs are refuted: the
+    default license taken once and kept across a configuration change (HeaderRight), a full queue that accepts by
+    evicting the oldest accepted pack (NoLossSafe).
 (A) Trace_OneWay: the real OneWayTcpClient against a scripted loopback collector: concurrent senders, queue mode
     (SendAndClear and the background worker), cut scripts, listener outages, frames larger than the writer buffer.
     Hook events are sequenced under the send lock by one atomic counter.  What the collector read on every connection
@@ -24,7 +28,7 @@ MODE_ONLY = {
 
 
 # steps of the deliberately broken designs (enabled only in the configurations that must be refuted)
-BROKEN_ONLY = {"DoWorkerDialRacy", "WorkerDialStart", "WorkerDialEnd"}
+BROKEN_ONLY = {"DoWorkerDialRacy", "WorkerDialStart", "WorkerDialEnd", "DoEnqueueEvict", "EnqueueEvict", "BuildStale"}
 
 
 def zero_actions(out):
@@ -68,7 +72,10 @@ def body(run):
     # ---- (M)
     r1 = run.mc("MC_OneWay", cfg="MC_OneWay_thorough.cfg" if th else "MC_OneWay.cfg", coverage=True, workers=w)
     r2 = run.mc("MC_OneWay", cfg="MC_OneWay_queue_thorough.cfg" if th else "MC_OneWay_queue.cfg", coverage=True, workers=w)
-    z1, z2 = zero_actions(r1["out"]), zero_actions(r2["out"])
+    # configuration changes between sends (license, capacity, servers; field and ApplyConfig)
+    r1c = run.mc("MC_OneWay", cfg="MC_OneWay_cfg_thorough.cfg" if th else "MC_OneWay_cfg.cfg", coverage=True, workers=w)
+    r2c = run.mc("MC_OneWay", cfg="MC_OneWay_qcfg_thorough.cfg" if th else "MC_OneWay_qcfg.cfg", coverage=True, workers=w)
+    z1, z2 = zero_actions(r1["out"]) & zero_actions(r1c["out"]), zero_actions(r2["out"]) & zero_actions(r2c["out"])
     vac = ((z1 - MODE_ONLY["direct"]) | (z2 - MODE_ONLY["queue"]) | (z1 & z2)) - BROKEN_ONLY
     run.extra["mc_actions_never_taken"] = sorted(vac)
     if vac:
@@ -81,6 +88,8 @@ def body(run):
     run.mc("MC_OneWay", cfg="MC_OneWay_nolock.cfg", expect_violation="MutualExclusion", workers=1)
     run.mc("MC_OneWay", cfg="MC_OneWay_keepwriter.cfg", expect_violation="FreshStart", workers=1)
     run.mc("MC_OneWay", cfg="MC_OneWay_wdial.cfg", expect_violation="NoLossSafe", workers=1)
+    run.mc("MC_OneWay", cfg="MC_OneWay_stalelic.cfg", expect_violation="HeaderRight", workers=1)
+    run.mc("MC_OneWay", cfg="MC_OneWay_evict.cfg", expect_violation="NoLossSafe", workers=1)
 
     # ---- (A) + (B)
     out, meta = run.drive("c06", timeout=run.pick(600, 2400))
@@ -103,6 +112,8 @@ def body(run):
     run.selftest(out, gate, gen="gate", dfs=True, field="id")
     run.selftest(out, rest, gen="fault", dfs=True, field="err")
     run.selftest(out, rest, gen="sac", dfs=True, field="plen")
+    run.selftest(out, rest, gen="reconf", dfs=True, field="obs_lic")
+    run.selftest(out, rest, gen="qfull", dfs=True, field="ok")
     run.assumptions += [
         "the collector's record of every connection (frames parsed with encoding/binary, payload digests with crypto/sha256, "
         "how it ended the connection) is given to the specification as a prophecy; kernel timing is not observable, so "
@@ -112,7 +123,14 @@ def body(run):
         "listener changes are made only while no dial can be in progress (all senders joined, or the client parked in a blocking hook)",
         "queue mode: accepted enqueues are placed in the order the drainer dequeued them, no earlier than their call; the "
         "specification rejects an order that contradicts real time (Tick) and a dequeue that is not the head of the queue; "
-        "a full queue is exercised only in sequential schedules (the bounded FIFO itself is C11)",
+        "a full queue is exercised only with ONE producer (every entry point; the drainer not running, parked inside a send or "
+        "parked inside a refused dial); concurrent producers at a full queue are the bounded FIFO's own property (C11)",
+        "configuration changes (License / Servers / queue capacity by assignment; ApplyConfig) are made only between sends: all "
+        "senders joined, the queue's drainer idle or parked inside a hook; in worker mode only by assignment (ApplyConfig "
+        "re-dials without the send lock and is not safe next to the running worker -- concurrency of ApplyConfig with sends is "
+        "outside the property's quantifier and not exercised); ApplyConfig always resolves the server list to the standard "
+        "port, so after it the client points away from the collector (host '/' = empty list: nobody is dialled) until the "
+        "harness assigns Servers again -- pointing away counts as an environment fault in the specification",
         "a timeout of the gate schedules (250 ms for B to enter A's critical section; 300 ms for a sender to get past the lock while "
         "the worker sits in its dial) can only cost detection, never raise an alarm; a history in which a wait FOR a state ran into "
         "its bound (90 s) is void (not judged); more than 10% void histories are a machinery failure (exit 2)",
